@@ -219,6 +219,9 @@ def cal_fitfractions(amp, mcdata, res=None, batch=None, args=(), kwargs=None):
             mcdata = list(data_split(mcdata, batch))
             if not isinstance(weight, float):
                 weight = list(data_split(weight, batch))
+        elif isinstance(mcdata, (list, tuple)):
+            # a sample that is already split: the weights travel with the pieces
+            weight = [i.get("weight", 1.0) for i in mcdata]
         int_mc, g_int_mc = sum_gradient(
             amp, mcdata, var=var, weight=weight, args=args, kwargs=kwargs
         )
@@ -286,6 +289,9 @@ def cal_fitfractions_no_grad(
             mcdata = list(data_split(mcdata, batch))
             if not isinstance(weight, float):
                 weight = list(data_split(weight, batch))
+        elif isinstance(mcdata, (list, tuple)):
+            # a sample that is already split: the weights travel with the pieces
+            weight = [i.get("weight", 1.0) for i in mcdata]
         int_mc = sum_no_gradient(
             amp, mcdata, var=var, weight=weight, args=args, kwargs=kwargs
         )
